@@ -39,9 +39,9 @@
 //     UnbanPeer take effect at once, with the given reason.
 //  4. ban-outlives-duration: 24h after the (last) ban IsBanned is false.
 //     unbanned-peer-not-reconnected: a full-service, never misbehaving peer for
-//     which a connection request exists is back in Peers() 10 virtual seconds
+//     which a connection request exists is back in Peers() 12 virtual seconds
 //     after its ban lapsed or was lifted (the connection manager redials a
-//     reachable persistent peer every 5 s).
+//     reachable persistent peer every 5 s; generated handshakes take up to 3 s).
 //  5. innocent-banned / banned-without-cause: a peer the table knows no ban for
 //     is not reported banned.
 //     invalid-block-sender-not-banned: a peer that answered a getdata with an
@@ -54,6 +54,21 @@
 // 24h after the previous quiescent point at the earliest; reason is one of the
 // filter-header reasons; expiry lies in the window) and rule 2.
 //
+// Domain restrictions (each one explained where it is implemented):
+//   - liars are let in only after a truthful full-service peer has been asked
+//     for headers (dial gate, as in C03/C04);
+//   - while some liar has lied, a truthful peer whose session ended (or that a
+//     netsim limitation keeps from answering) may be banned with a filter-header
+//     reason as a non-responder: tolerated and classified, never demanded;
+//   - events that would make the client hold two connection attempts to one
+//     address at a time are skipped unless the case says dup_ok (the client
+//     then keeps both sessions: BanPeer disconnects only one of them, see
+//     testdata/enforce-second-connection-survives-ban.json, and the query work
+//     manager can dereference nil, which would kill the test process);
+//   - ConnectNode / UnbanPeer are kept 10 ms away from the end of a session of
+//     the same address (C12's excluded same-instant reconnect);
+//   - during the bulk of a jump of hours no peer accepts connections (cost).
+//
 // Every identifier of this file is prefixed with en ("enforce").
 package c13
 
@@ -62,8 +77,10 @@ import (
 	"encoding/binary"
 	"fmt"
 	"net"
+	"os"
 	"strings"
 	"sync"
+	"sync/atomic"
 	"testing"
 	"time"
 
@@ -89,6 +106,10 @@ type enPeerSpec struct {
 	From int `json:"from,omitempty"`
 	// Early: dialled at start (persistent); otherwise only on a connect event.
 	Early bool `json:"early,omitempty"`
+	// SlowMs: the peer's first bytes (its version message) reach the client
+	// this many virtual milliseconds after the connection was established, so
+	// that events can fall into a handshake.
+	SlowMs int64 `json:"slow_ms,omitempty"`
 }
 
 type enEvent struct {
@@ -129,6 +150,14 @@ type enCase struct {
 	StartMs int64        `json:"start_ms"`
 	Peers   []enPeerSpec `json:"peers"`
 	Events  []enEvent    `json:"events"`
+	// DupOK: events that make the client open a second connection to an
+	// address while a first attempt is still under way are executed
+	// (otherwise skipped). Before the repair 1697405 both connections became
+	// peers: BanPeer disconnected only one of them, and the query work
+	// manager, which keys its workers by address, dereferenced nil when one
+	// of them ended. Generated in half of the cases (not with
+	// C13_ENFORCE_NODUP=1).
+	DupOK bool `json:"dup_ok,omitempty"`
 }
 
 var enFull = wire.SFNodeNetwork | wire.SFNodeWitness | wire.SFNodeCF
@@ -158,11 +187,19 @@ func enGen(t *rapid.T) enCase {
 	c.BlockLag = kit.Pick(t, "blocklag", []int{0, 3})
 	c.FilterLag = kit.Pick(t, "filterlag", []int{0, 4})
 	c.StartMs = kit.Pick(t, "startms", []int64{0, 0, 250, 999})
+	if os.Getenv("C13_ENFORCE_NODUP") != "1" {
+		c.DupOK = kit.Uni(t, "dupok", 2) == 0
+	}
+	maxEvents := 14
+	if kit.Thorough() {
+		maxEvents = 28
+	}
 	np := rapid.IntRange(2, 6).Draw(t, "npeers")
 	kinds := []string{"honest", "honest", "honest", "nowit", "nowit", "nocf", "nocf", "none", "inconsistent", "unserved", "omit", "badblock"}
 	fp := base - c.BlockLag - c.FilterLag
 	for i := 0; i < np; i++ {
-		ps := enPeerSpec{Kind: kit.Pick(t, "pkind", kinds), Early: kit.Uni(t, "early", 3) != 0}
+		ps := enPeerSpec{Kind: kit.Pick(t, "pkind", kinds), Early: kit.Uni(t, "early", 3) != 0,
+			SlowMs: kit.Pick(t, "slow", []int64{0, 0, 0, 0, 1500, 3000})}
 		if enIsLiar(ps.Kind) {
 			ps.From = fp + 1
 			if fp+1 < base {
@@ -189,7 +226,7 @@ func enGen(t *rapid.T) enCase {
 			e.Height = rapid.IntRange(1, base).Draw(t, "height")
 		}
 		return e
-	}), 3, 14).Draw(t, "events")
+	}), 3, maxEvents).Draw(t, "events")
 	return c
 }
 
@@ -247,17 +284,31 @@ type enRun struct {
 	sentBad        []bool
 	dialsWhileBan  int
 	spyViolation   string
-	spyViolationAt string
+	lapsedSpy      bool
+	live, peakLive []int       // connections to the peer the client has spoken on and not closed
+	open           []int       // connections to the peer the client has not closed
+	lastClose      []time.Time // the client closed a connection to the peer
+	lastLiveClose  []time.Time // ... one it had spoken on
+	liveCloses     []int       // number of those
+	// muted: the client turned down a further connection to the peer while a
+	// session was alive. A netsim peer answers on its most recent session
+	// only, so from then on the peer may be unable to answer requests.
+	muted []bool
+
+	gateOpen atomic.Bool // liars are let in
 
 	// Harness goroutine only.
-	wanted    []bool      // a persistent connection request exists
-	oneshot   []bool      // UnbanPeer issued a one-shot request
-	stableAt  []time.Time // last event that may delay a reconnect
-	lastCheck time.Time
-	lifted    bool
-	lapsed    bool
-	svcBanned bool
-	classes   map[string]bool
+	everCut []bool // a session of the peer was cut (drop, ban) at some point
+	wanted  []bool // a persistent connection request exists
+	oneshot []bool // UnbanPeer issued a one-shot request
+	// oneshotBase: liveCloses at that moment; a one-shot connection that
+	// ended (for whatever reason) is not retried by the client.
+	oneshotBase []int
+	stableAt    []time.Time // last event that may delay a reconnect
+	lastCheck   time.Time
+	lifted      bool
+	lapsed      bool
+	classes     map[string]bool
 }
 
 func (r *enRun) class(format string, a ...any) {
@@ -306,17 +357,53 @@ type enSpy struct {
 	bannedAtDial bool
 	dialAt       time.Time
 
-	mu    sync.Mutex
-	buf   []byte
-	done  bool // version seen (or stream not understood): stop parsing
-	wrote bool
+	mu      sync.Mutex
+	buf     []byte
+	done    bool // version seen (or stream not understood): stop parsing
+	wrote   bool
+	closed  bool
+	delayed bool
+}
+
+func (c *enSpy) Close() error {
+	c.mu.Lock()
+	first := !c.closed
+	live := c.wrote && first
+	c.closed = true
+	c.mu.Unlock()
+	if first {
+		c.r.mu.Lock()
+		c.r.open[c.i]--
+		c.r.lastClose[c.i] = time.Now()
+		if live {
+			c.r.live[c.i]--
+			c.r.lastLiveClose[c.i] = time.Now()
+			c.r.liveCloses[c.i]++
+		} else if c.r.live[c.i] > 0 {
+			c.r.muted[c.i] = true
+		}
+		c.r.mu.Unlock()
+	}
+	return c.Conn.Close()
 }
 
 func (c *enSpy) Write(p []byte) (int, error) {
 	c.mu.Lock()
-	first := !c.wrote
-	c.wrote = true
+	first := !c.wrote && !c.closed
+	if first {
+		c.wrote = true
+	}
 	c.mu.Unlock()
+	if first {
+		// the client speaks on this connection: it counts as one of its
+		// connections to the address until the client closes it
+		c.r.mu.Lock()
+		c.r.live[c.i]++
+		if c.r.live[c.i] > c.r.peakLive[c.i] {
+			c.r.peakLive[c.i] = c.r.live[c.i]
+		}
+		c.r.mu.Unlock()
+	}
 	if first && c.bannedAtDial {
 		c.r.mu.Lock()
 		if c.r.spyViolation == "" {
@@ -328,6 +415,13 @@ func (c *enSpy) Write(p []byte) (int, error) {
 }
 
 func (c *enSpy) Read(p []byte) (int, error) {
+	c.mu.Lock()
+	wait := !c.delayed
+	c.delayed = true
+	c.mu.Unlock()
+	if d := c.r.c.Peers[c.i].SlowMs; wait && d > 0 {
+		time.Sleep(time.Duration(d) * time.Millisecond)
+	}
 	n, err := c.Conn.Read(p)
 	if n > 0 {
 		c.feed(p[:n])
@@ -376,10 +470,16 @@ func (r *enRun) versionRead(i int) {
 	kind := r.c.Peers[i].Kind
 	r.mu.Lock()
 	r.versions[i]++
-	again := false
+	again, ranOut := false, false
 	if enServices(kind) != enFull {
 		again = r.svcBans[i] > 0
 		r.svcBans[i]++
+		// An earlier ban that ran out between two quiescent points is
+		// replaced here before check() sees it lapse.
+		if old := r.bans[i]; old != nil && enState(old, now) == enNot {
+			ranOut = true
+			r.lapsedSpy = true
+		}
 		r.bans[i] = &enBan{lo: now, hi: now, reasons: []banman.Reason{banman.NoCompactFilters}, src: "version"}
 	}
 	r.mu.Unlock()
@@ -389,6 +489,10 @@ func (r *enRun) versionRead(i int) {
 		if again {
 			r.class("ban-again-after-lapse-or-unban")
 		}
+		if ranOut {
+			r.class("lapse")
+			r.class("lapse:version-then-banned-again")
+		}
 	}
 }
 
@@ -396,6 +500,7 @@ func (r *enRun) dialed(i int, c net.Conn) net.Conn {
 	now := time.Now()
 	r.mu.Lock()
 	r.dials[i]++
+	r.open[i]++
 	banned := enState(r.bans[i], now) == enBanned
 	if banned {
 		r.dialsWhileBan++
@@ -438,6 +543,12 @@ func (r *enRun) check(when string) bool {
 			connected[i]++
 		}
 	}
+	anyLied := false
+	for i, p := range s.Peers {
+		if enIsLiar(r.c.Peers[i].Kind) && p.HasLied() {
+			anyLied = true
+		}
+	}
 	var line []string
 	for i, p := range s.Peers {
 		kind := r.c.Peers[i].Kind
@@ -461,7 +572,25 @@ func (r *enRun) check(when string) bool {
 		nver := r.versions[i]
 		r.mu.Unlock()
 		liedLiar := enIsLiar(kind) && p.HasLied()
-		if b != nil && liedLiar {
+		// While peers disagree on filter headers the client asks every
+		// peer for the filter behind its claim and bans, with a
+		// filter-header reason, each one that does not answer (blockmanager.go
+		// detectBadPeers: "If a peer did not respond, ban it immediately").
+		// A truthful peer whose session was cut (dropped by the script,
+		// banned through the API or for an invalid block) in the middle of
+		// such a dispute (or that cannot answer, see muted) looks exactly like
+		// a liar that withholds its filter.
+		// This is the client's documented behaviour; the instant is not
+		// observable from the peers.
+		r.mu.Lock()
+		muted := r.muted[i]
+		closes := r.liveCloses[i]
+		r.mu.Unlock()
+		if r.oneshot[i] && closes > r.oneshotBase[i] {
+			r.oneshot[i] = false
+		}
+		inDispute := !liedLiar && enServices(kind) == enFull && anyLied && (r.everCut[i] || closes > 0 || muted || (b != nil && b.src == "block"))
+		if b != nil && (liedLiar || inDispute) {
 			b.fuzzy = true
 		}
 		state := enState(b, now)
@@ -503,6 +632,15 @@ func (r *enRun) check(when string) bool {
 		case enNot:
 			if got {
 				switch {
+				case inDispute && enHas(enLieReasons, st.Reason):
+					nb := &enBan{lo: prev, hi: now, reasons: enLieReasons, src: "observed", fuzzy: true}
+					r.mu.Lock()
+					r.bans[i] = nb
+					r.mu.Unlock()
+					b = nb
+					state = enBanned
+					r.class("tolerated:cut-off-peer-banned-in-filter-header-dispute")
+					r.v.Logf("  p%d (%s) was cut off while filter headers were disputed and is banned (reason %d)", i, kind, st.Reason)
 				case liedLiar:
 					// Banned by the client for its lie at an instant in
 					// (prev, now]; from here on only stability is demanded.
@@ -547,15 +685,26 @@ func (r *enRun) check(when string) bool {
 
 		// No connection is kept to a banned address.
 		if connected[i] > 0 && (got || state == enBanned) {
-			return r.fail("banned-peer-connected", "%s: peer %d (%s) is banned (IsBanned = %v, expected table: %v) and is in Peers() at a quiescent point (%s)", when, i, kind, got, state == enBanned, enVT(now))
+			r.mu.Lock()
+			peak := r.peakLive[i]
+			r.mu.Unlock()
+			sym := "banned-peer-connected"
+			if peak > 1 {
+				// BanPeer disconnects the first connection PeerByAddr finds
+				sym += "/several-connections-to-the-address"
+			}
+			return r.fail(sym, "%s: peer %d (%s) is banned (IsBanned = %v, expected table: %v) and is in Peers() %d times at a quiescent point (%s); the client had up to %d connections to the address at a time", when, i, kind, got, state == enBanned, connected[i], enVT(now), peak)
 		}
 		if connected[i] > 0 && enServices(kind) != enFull {
 			return r.fail("no-service-peer-connected", "%s: peer %d advertises services %v and is in Peers() at a quiescent point (%s)", when, i, p.Services, enVT(now))
 		}
 
 		// A reachable, innocent, unbanned peer the client wants is connected.
-		if state == enNot && !got && (r.wanted[i] || r.oneshot[i]) && !p.Refuse && r.clean(i) &&
-			!now.Before(r.stableAt[i].Add(10*time.Second)) {
+		r.mu.Lock()
+		llc := r.lastLiveClose[i]
+		r.mu.Unlock()
+		if state == enNot && !got && (r.wanted[i] || r.oneshot[i]) && !p.Refuse && !enIsLiar(kind) && r.clean(i) &&
+			!now.Before(r.stableAt[i].Add(12*time.Second)) && !now.Before(llc.Add(12*time.Second)) {
 			if connected[i] == 0 {
 				return r.fail("unbanned-peer-not-reconnected", "%s: peer %d (%s) is not banned, reachable, wanted by a connection request and undisturbed since %s, but is not in Peers() at %s", when, i, kind, enVT(r.stableAt[i]), enVT(now))
 			}
@@ -594,8 +743,8 @@ func enRunCase(t *testing.T, c enCase) kit.Verdict {
 	w := kit.BuildWorld(c.World)
 	np := len(c.Peers)
 	r := &enRun{v: &v, c: c, w: w, idx: map[string]int{}, classes: map[string]bool{},
-		bans: make([]*enBan, np), dials: make([]int, np), versions: make([]int, np), svcBans: make([]int, np), sentBad: make([]bool, np),
-		wanted: make([]bool, np), oneshot: make([]bool, np), stableAt: make([]time.Time, np)}
+		bans: make([]*enBan, np), dials: make([]int, np), versions: make([]int, np), svcBans: make([]int, np), sentBad: make([]bool, np), live: make([]int, np), peakLive: make([]int, np), open: make([]int, np), lastClose: make([]time.Time, np), lastLiveClose: make([]time.Time, np), liveCloses: make([]int, np), oneshotBase: make([]int, np), muted: make([]bool, np),
+		everCut: make([]bool, np), wanted: make([]bool, np), oneshot: make([]bool, np), stableAt: make([]time.Time, np)}
 	tip := w.Br[0].Tip()
 	path := tip.Path()
 	prefill := c.World.Base - c.BlockLag
@@ -609,6 +758,29 @@ func enRunCase(t *testing.T, c enCase) kit.Verdict {
 			cfg.Initial = append(cfg.Initial, i)
 			r.wanted[i] = true
 		}
+	}
+	// A filter-header liar that is the client's only source for a while gets
+	// its filter headers committed unopposed; an honest peer arriving later is
+	// then banned for a "wrong previous filter header" (blockmanager.go,
+	// getUncheckpointedCFHeaders). Neither C03 nor this property excludes that,
+	// so, as in C03/C04, liars are let in only once a truthful full-service
+	// peer has been asked for headers. (The gate is created inside the bubble.)
+	var gate chan struct{}
+	var gateOnce sync.Once
+	openGate := func() {
+		gateOnce.Do(func() {
+			r.gateOpen.Store(true)
+			if gate != nil {
+				close(gate)
+			}
+		})
+	}
+	cfg.AfterStart = func(*netsim.Sim) { gate = make(chan struct{}) }
+	cfg.DialGate = func(i int) <-chan struct{} {
+		if enIsLiar(c.Peers[i].Kind) {
+			return gate
+		}
+		return nil
 	}
 	cfg.Tweak = func(nc *neutrino.Config) {
 		orig := nc.Dialer
@@ -634,9 +806,19 @@ func enRunCase(t *testing.T, c enCase) kit.Verdict {
 			switch {
 			case enIsLiar(ps.Kind):
 				p.LieCFFrom, p.LieCFKind = int32(ps.From), ps.Kind
+			case ps.Kind == "honest":
+				p.Override = func(p *netsim.Peer, m wire.Message) bool {
+					if _, ok := m.(*wire.MsgGetHeaders); ok {
+						openGate()
+					}
+					return false
+				}
 			case ps.Kind == "badblock":
 				pi := i
 				p.Override = func(p *netsim.Peer, m wire.Message) bool {
+					if _, ok := m.(*wire.MsgGetHeaders); ok {
+						openGate()
+					}
 					g, ok := m.(*wire.MsgGetData)
 					if !ok {
 						return false
@@ -647,13 +829,19 @@ func enRunCase(t *testing.T, c enCase) kit.Verdict {
 							continue
 						}
 						now := time.Now()
+						// (netsim peers write on their most recent
+						// session only; after a dial the client turned
+						// down at once there is none to write on)
+						if !p.Send(enCorrupt(n.Block)) {
+							r.v.Logf("  %s: p%d cannot answer getdata(block %d): no current session", enVT(now), pi, n.Height)
+							continue
+						}
 						r.mu.Lock()
 						r.sentBad[pi] = true
 						r.bans[pi] = &enBan{lo: now, hi: now, reasons: []banman.Reason{banman.InvalidBlock}, src: "block"}
 						r.mu.Unlock()
 						r.v.Logf("  %s: p%d answers getdata(block %d) with an invalid block: ban expected", enVT(now), pi, n.Height)
 						r.class("ban:invalid-block")
-						p.Send(enCorrupt(n.Block))
 					}
 					return true
 				}
@@ -661,6 +849,11 @@ func enRunCase(t *testing.T, c enCase) kit.Verdict {
 		}
 	}
 	res := netsim.Run(t, cfg, setup, func(s *netsim.Sim) {
+		// no dialer stays parked at the gate when the client is stopped
+		defer func() {
+			openGate()
+			s.Settle()
+		}()
 		start := time.Now()
 		for i := range r.stableAt {
 			r.stableAt[i] = start
@@ -688,6 +881,29 @@ func enRunCase(t *testing.T, c enCase) kit.Verdict {
 			p := s.Peers[e.Peer]
 			addr := p.Addr.String()
 			v.Logf("event %d at %s: %s", k, enVT(now), e)
+			if (e.Kind == "connect" && !r.wanted[e.Peer] || e.Kind == "unban") && !c.DupOK && r.wouldDuplicate(e.Peer, e.Kind) {
+				v.Logf("  skipped: a connection attempt to p%d is under way, the client would open a second connection to the address", e.Peer)
+				r.class("skipped:would-open-a-second-connection")
+				continue
+			}
+			if e.Kind == "connect" && !r.wanted[e.Peer] || e.Kind == "unban" {
+				// The query work manager keys its workers by address; an
+				// address that reconnects in the very instant its previous
+				// session ended confuses it (the schedule C12 excludes; the
+				// client's own redials come 5 s later). ConnectNode dials
+				// at once, so it is kept 10 ms away from the end of a
+				// session.
+				r.mu.Lock()
+				same := r.lastClose[e.Peer].Equal(now)
+				r.mu.Unlock()
+				if same {
+					if !s.Advance(10 * time.Millisecond) {
+						return
+					}
+					now = time.Now()
+					r.class("paused:no-reconnect-in-the-instant-of-disconnect")
+				}
+			}
 			switch e.Kind {
 			case "connect":
 				if !r.wanted[e.Peer] {
@@ -700,6 +916,7 @@ func enRunCase(t *testing.T, c enCase) kit.Verdict {
 				}
 			case "drop":
 				p.Disconnect()
+				r.everCut[e.Peer] = true
 				r.oneshot[e.Peer] = false
 				r.stableAt[e.Peer] = now
 			case "advance":
@@ -721,6 +938,7 @@ func enRunCase(t *testing.T, c enCase) kit.Verdict {
 				r.bans[e.Peer] = nb
 				r.mu.Unlock()
 				r.stableAt[e.Peer] = now
+				r.everCut[e.Peer] = true
 				r.class("api-ban")
 			case "unban":
 				// The table is cleared first: UnbanPeer dials at once and a
@@ -736,6 +954,9 @@ func enRunCase(t *testing.T, c enCase) kit.Verdict {
 					v.Logf("  UnbanPeer: %v", err)
 				} else {
 					r.oneshot[e.Peer] = true
+					r.mu.Lock()
+					r.oneshotBase[e.Peer] = r.liveCloses[e.Peer]
+					r.mu.Unlock()
 				}
 				r.stableAt[e.Peer] = now
 				r.class("api-unban")
@@ -757,7 +978,7 @@ func enRunCase(t *testing.T, c enCase) kit.Verdict {
 		}
 		// Wind down: let pending reconnects happen.
 		for k := 0; k < 2; k++ {
-			if !s.Advance(6 * time.Second) {
+			if !s.Advance(7 * time.Second) {
 				return
 			}
 			if !r.check(fmt.Sprintf("wind-down %d", k)) {
@@ -777,11 +998,44 @@ func enRunCase(t *testing.T, c enCase) kit.Verdict {
 		svc += n
 	}
 	dwb := r.dialsWhileBan
+	if r.lapsedSpy {
+		r.lapsed = true
+	}
 	r.mu.Unlock()
 	v.Count("service_bit_bans", svc)
 	v.Count("dials_while_banned", dwb)
 	v.Nontrivial = svc > 0 && (r.lapsed || r.lifted || dwb > 0)
 	return v
+}
+
+// wouldDuplicate reports whether a ConnectNode for peer i (through a connect
+// or unban event) may lead to two simultaneous sessions with the address: the
+// client refuses a new connection only to an address whose handshake is
+// complete.
+func (r *enRun) wouldDuplicate(i int, kind string) bool {
+	ps := r.c.Peers[i]
+	addr := r.s.Peers[i].Addr.String()
+	established := false
+	for _, sp := range r.s.CS.Peers() {
+		if sp.Addr() == addr {
+			established = true
+		}
+	}
+	if established {
+		return false
+	}
+	r.mu.Lock()
+	open := r.open[i]
+	r.mu.Unlock()
+	if open > 0 {
+		return true // a handshake is in progress
+	}
+	if enIsLiar(ps.Kind) && !r.gateOpen.Load() && (r.wanted[i] || r.oneshot[i]) {
+		return true // a dial is parked at the gate
+	}
+	// UnbanPeer dials at once; with a slow handshake the persistent
+	// request's next retry (at most 5 s away) starts a second one.
+	return kind == "unban" && r.wanted[i] && ps.SlowMs > 0
 }
 
 // jump moves the clock to (ban of e.Peer + 24h + e.Ms); if that peer has no
